@@ -537,6 +537,7 @@ struct World {
     nodes: [ActorRef<NodeServerMessage>; 2],
     events: Events,
     sess: Option<[NodeServerSessionInformation; 2]>,
+    connect_done: bool,
     link: Option<Arc<Mutex<Link>>>,
     probes: BTreeMap<u64, ProbeInfo>,
     handles: BTreeMap<(u64, u64), ActorCell>,
@@ -612,9 +613,10 @@ impl World {
     }
 
     async fn connect(&mut self) {
-        if self.sess.is_some() {
+        if self.connect_done {
             infra("connect appears twice");
         }
+        self.connect_done = true;
         // --- bump node B's node_id counter with a connection whose peer end is already gone
         let disc_before = self.events.lock().unwrap().iter().filter(|e| e.0 == 1 && e.1 == EvKind::Disc).count();
         let (x, y) = tokio::io::duplex(1024);
@@ -646,16 +648,35 @@ impl World {
         {
             infra("node server rejected the real connection");
         }
+        // The transport delivers every byte, uncut and in order. If the sessions nevertheless tear
+        // down or never become ready (a broken frame reader / handshake), that is an OBSERVATION about
+        // the code under test, not an infrastructure problem: the case goes on without a session
+        // (snapshots report up = false, sends through remote references find no proxy).
         let ev = self.events.clone();
-        wait_until("both sessions to become ready", || {
-            let e = ev.lock().unwrap();
-            let tail = &e[mark..];
-            if let Some(d) = tail.iter().find(|x| x.1 == EvKind::Disc) {
-                infra(format!("session on node {} disconnected before ready", d.0));
+        let deadline = tokio::time::Instant::now() + Duration::from_secs(30);
+        let became_ready = loop {
+            {
+                let e = ev.lock().unwrap();
+                let tail = &e[mark..];
+                if tail.iter().any(|x| x.1 == EvKind::Disc) {
+                    break false;
+                }
+                if tail.iter().any(|x| x.0 == 0 && x.1 == EvKind::Ready) && tail.iter().any(|x| x.0 == 1 && x.1 == EvKind::Ready) {
+                    break true;
+                }
             }
-            tail.iter().any(|x| x.0 == 0 && x.1 == EvKind::Ready) && tail.iter().any(|x| x.0 == 1 && x.1 == EvKind::Ready)
-        })
-        .await;
+            if tokio::time::Instant::now() >= deadline {
+                break false;
+            }
+            tokio::time::sleep(Duration::from_millis(1)).await;
+        };
+        if !became_ready {
+            if debug() {
+                eprintln!("  connect: the sessions did not become ready on an uncut transport");
+            }
+            self.link = Some(link);
+            return;
+        }
         let sa = sessions_of(&self.nodes[0]).await;
         let sb = sessions_of(&self.nodes[1]).await;
         if sa.len() != 1 || sb.len() != 1 {
@@ -972,6 +993,7 @@ async fn run_case(case: u64, line: String) -> String {
         probes: BTreeMap::new(),
         handles: BTreeMap::new(),
         seqs: HashMap::new(),
+        connect_done: false,
         groups: BTreeSet::new(),
         log: Arc::new(Mutex::new(Vec::new())),
         sent: Vec::new(),
